@@ -219,31 +219,28 @@ theorem collectLoop_ok (hp : ParserShape) (includeDir : Option String) : ∀ (fu
       · split at h
         · cases h
         · rename_i tree errors hparse
-          split at h
-          · cases h
-          · rename_i fileDir _
-            have hc2 : CInv { c with queue := queue, fileSet := c.fileSet.push fileId } := by
-              refine ⟨hc.contents, hc.infos, hc1.queue, ?_, hc.files⟩
-              intro f hf
-              simp only [Array.toList_push, List.mem_append, List.mem_singleton] at hf
-              rcases hf with hf | rfl
-              · exact hc.fileSet f hf
-              · exact hfid
-            exact (fun hres =>
-                (fun (X : CInv c' ∧ _) => ⟨X.1, Nat.le_trans hres.2.2 X.2⟩)
-                  (collectLoop_ok hp includeDir fuel _ c'
-                    (CInv.setInfo hres.1 fileId (parseFile_ok hp hparse _ _).1 hres.2.1) h))
-              (resolveIncludes_ok
-                _ _
-                (by
-                  intro st inc
-                  split
-                  · rename_i id c'' heq
-                    exact Or.inl ⟨id, c'', heq, rfl⟩
-                  · rename_i c'' heq
-                    exact Or.inr ⟨c'', heq, rfl⟩)
-                (listIncludes tree)
-                ({ c with queue := queue, fileSet := c.fileSet.push fileId }, []) hc2 (by intro e he; cases he))
+          have hc2 : CInv { c with queue := queue, fileSet := c.fileSet.push fileId } := by
+            refine ⟨hc.contents, hc.infos, hc1.queue, ?_, hc.files⟩
+            intro f hf
+            simp only [Array.toList_push, List.mem_append, List.mem_singleton] at hf
+            rcases hf with hf | rfl
+            · exact hc.fileSet f hf
+            · exact hfid
+          exact (fun hres =>
+              (fun (X : CInv c' ∧ _) => ⟨X.1, Nat.le_trans hres.2.2 X.2⟩)
+                (collectLoop_ok hp includeDir fuel _ c'
+                  (CInv.setInfo hres.1 fileId (parseFile_ok hp hparse _ _).1 hres.2.1) h))
+            (resolveIncludes_ok
+              _ _
+              (by
+                intro st inc
+                split
+                · rename_i id c'' heq
+                  exact Or.inl ⟨id, c'', heq, rfl⟩
+                · rename_i c'' heq
+                  exact Or.inr ⟨c'', heq, rfl⟩)
+              (listIncludes tree)
+              ({ c with queue := queue, fileSet := c.fileSet.push fileId }, []) hc2 (by intro e he; cases he))
 
 
 /-! ### `buildWorkspace` -/
